@@ -15,6 +15,8 @@ mod c15;
 mod c17;
 mod c13;
 mod c16;
+mod gr;
+mod c05;
 
 pub type Gen = fn(&mut util::Rng, &str) -> String;
 pub type Exec = fn(&[&str]) -> String;
@@ -30,6 +32,7 @@ fn table(prop: &str) -> Option<(Gen, Exec)> {
         "C17" => Some((c17::gen, c17::exec)),
         "C13" => Some((c13::gen, c13::exec)),
         "C16" => Some((c16::gen, c16::exec)),
+        "C05" => Some((c05::gen, c05::exec)),
         "C12" => Some((c13::gen12, c13::exec)),
         _ => None,
     }
@@ -51,7 +54,9 @@ fn run_one(req: &str) -> String {
 }
 
 fn main() {
-    std::panic::set_hook(Box::new(|_| {}));
+    if std::env::var("VERIF_HARNESS_VERBOSE").is_err() {
+        std::panic::set_hook(Box::new(|_| {}));
+    }
     let args: Vec<String> = std::env::args().collect();
     let out = std::io::stdout();
     let mut out = std::io::BufWriter::new(out.lock());
